@@ -12,7 +12,23 @@
 #include <mutex>
 #include <string>
 #include <thread>
+#include <arpa/inet.h>
+#include <netinet/in.h>
+#include <sys/socket.h>
+#include <unistd.h>
 using namespace ephemeralnet;
+// a hand-written client: sends the request text verbatim (the bundled client normalises the command's case)
+static std::string raw_request(std::uint16_t port, const std::string& text) {
+    int fd = ::socket(AF_INET, SOCK_STREAM, 0);
+    sockaddr_in addr{}; addr.sin_family = AF_INET; addr.sin_port = htons(port); addr.sin_addr.s_addr = htonl(INADDR_LOOPBACK);
+    if (::connect(fd, reinterpret_cast<sockaddr*>(&addr), sizeof(addr)) != 0) { ::close(fd); return ""; }
+    ::send(fd, text.data(), text.size(), 0);
+    timeval tv{3, 0}; ::setsockopt(fd, SOL_SOCKET, SO_RCVTIMEO, &tv, sizeof(tv));
+    std::string out; char buf[4096];
+    for (;;) { const auto n = ::recv(fd, buf, sizeof(buf), 0); if (n <= 0) break; out.append(buf, static_cast<std::size_t>(n)); if (out.find("\n\n") != std::string::npos) break; }
+    ::close(fd);
+    return out;
+}
 int main(int argc, char** argv) {
     if (argc < 3) return 2;
     const std::string scenario = argv[1];
@@ -75,6 +91,28 @@ int main(int argc, char** argv) {
         const bool ok = refused(r);
         std::size_t after; { std::scoped_lock lock(node_mutex); after = node.stored_chunks().size(); }
         if (after != before || !ok) { std::printf("REPRODUCED: STORE without the token: refused=%d chunks %zu -> %zu\n", ok ? 1 : 0, before, after); rc = 1; }
+    } else if (scenario == "raw") {
+        // the same four requests with the command spelled in lower / mixed case, written by hand, no TOKEN header
+        const auto out = std::filesystem::temp_directory_path() / ("c27-raw-" + std::to_string(port) + ".bin");
+        std::filesystem::remove(out);
+        std::size_t before; { std::scoped_lock lock(node_mutex); before = node.stored_chunks().size(); }
+        const std::string reqs[] = {
+            "COMMAND:Store\nTTL:120\nPAYLOAD-LENGTH:4\n\nabcd",
+            "COMMAND:fetch\nMANIFEST:" + uri + "\nOUT:" + out.string() + "\n\n",
+            "COMMAND:Fetch\nMANIFEST:" + uri + "\nSTREAM:client\n\n",
+            "COMMAND:stop\n\n"};
+        for (const auto& rq : reqs) {
+            const auto resp = raw_request(port, rq);
+            const bool ok_status = resp.find("STATUS:OK") != std::string::npos;
+            std::size_t after; { std::scoped_lock lock(node_mutex); after = node.stored_chunks().size(); }
+            bool registered; { std::scoped_lock lock(node_mutex); registered = !node.manifest_cache_.empty(); }
+            if (ok_status || after != before || std::filesystem::exists(out) || registered || stop_called.load()) {
+                std::printf("REPRODUCED: hand-written request \"%s\" without the token: status_ok=%d stored=%d file_written=%d manifest_registered=%d stop_invoked=%d\n",
+                            rq.substr(0, rq.find('\n')).c_str(), ok_status ? 1 : 0, after != before ? 1 : 0, std::filesystem::exists(out) ? 1 : 0, registered ? 1 : 0, stop_called.load() ? 1 : 0);
+                rc = 1; break;
+            }
+        }
+        std::filesystem::remove(out);
     } else {
         return 2;
     }
